@@ -9,6 +9,14 @@ TB = ("trusted base: rustc's MIR construction and Instance resolution for the re
       "mir-opt-level 0, overflow checks on), the fact extractor /verif/driver, std/rpds/arcstr behaving as documented")
 
 CLAIMS = {
+ 'C09': dict(
+   technique="inter-procedural operator-signature extraction per word (MIR binops, resolved std callees, reified fn items/closures) + dominance of zero tests + provenance of error payloads",
+   text=("Static, structural part only: the numerical exactness of results is not decided. Decided for all 33 arith words: no bare/overflow-"
+         "inheriting integer operator is applied to i128 operands (so the result is the wrapped value or an error in both build profiles); every "
+         "division-family site is dominated by an exact `divisor == 0` test whose true side is DivisionByZero; every type error carries a value "
+         "popped by the same word; the operator signature of each word (and the Ordering test of each comparison word, and that compare_cells "
+         "compares the operands themselves) equals a reviewed table, so a word cannot apply a different total operator."),
+   ref='§3 C09'),
  'C03': dict(
    technique="type-graph sharing inventory (rustc ADT facts) + who-may-call on alias-producing APIs + raw-pointer/unsafe/static inventory (custom extractor, Python rules)",
    text=("Static, aliasing argument: every pointer or cell through which a derived State::clone can share storage with the original is in a "
